@@ -58,6 +58,8 @@ def gaussian_fill(
         A 2D array representing the output mask filled with randomly sampled positions following
         a 2D Gaussian distribution.
     """
+    # The cython function takes C-contiguous arrays; a mask taken from a transposed or strided tensor is not.
+    mask, output_mask = np.ascontiguousarray(mask), np.ascontiguousarray(output_mask)
     return _gaussian_fill(nonzero_mask_count, nrow, ncol, center_x, center_y, std_scale, mask, output_mask, seed)
 
 
